@@ -54,8 +54,12 @@ class _InMemoryConsumer(ConsumerT):
     async def finish(self) -> None:
         await asyncio.sleep(0)
         self._started = False
-        while self._queue.processing:
-            self._queue.simple.put_nowait(self._queue.processing.pop())
+        # give back only the messages this consumer holds - other consumers of the queue keep theirs
+        for msg in [m for m, holder in self._queue.holders.items() if holder is self]:
+            del self._queue.holders[msg]
+            if msg in self._queue.processing:
+                self._queue.processing.remove(msg)
+                self._queue.simple.put_nowait(msg)
         await asyncio.sleep(0)
 
     def __update_delayed(self) -> None:
@@ -118,6 +122,9 @@ class _InMemoryConsumer(ConsumerT):
                 self.__update_delayed()
 
         self._queue.processing.add(msg)
+        for done in [m for m in self._queue.holders if m not in self._queue.processing]:
+            del self._queue.holders[done]  # acked / returned meanwhile
+        self._queue.holders[msg] = self
 
         await asyncio.sleep(0)
         return (msg.key, msg.payload, msg.parameters)
